@@ -1787,7 +1787,22 @@ class Elab:
 
     def st_Pass(self, s, env, p): pass
     def st_Import(self, s, env, p): pass
-    def st_ImportFrom(self, s, env, p): pass
+    def st_ImportFrom(self, s, env, p):
+        # function-level `from <repo module> import a, b`: bind the names to what the module defines (module-level imports are resolved
+        # lazily through lookup_global)
+        if env.get("$module") is not None and env.vars.get("$module") is not None:
+            return                      # module scope: handled by lookup_global
+        if not s.module or s.level:
+            return
+        menv = self.modenv(s.module)
+        if menv is None:
+            return
+        for a in s.names:
+            v = menv.vars.get(a.name)
+            if v is None:
+                v = self.lookup_global(menv, a.name)
+            if v is not None:
+                env.set(a.asname or a.name, v)
     def st_Global(self, s, env, p): pass
     def st_Nonlocal(self, s, env, p): pass
     def st_Delete(self, s, env, p): pass
